@@ -14,7 +14,7 @@
 // Suggested fix: recompute g__s_ij[j][i] when the share is adjusted in 1(d), and keep the own complaints in the list.
 //
 // Build: g++ -O1 -g -w -pthread -fno-access-control -DHAVE_CONFIG_H -I/repo -I/repo/src -I/verif/mc \
-//     /verif/findings/c16_nts_stale_share_cache.cc /verif/build/plain/mc/env_shim.o /verif/build/plain/libtmcg.a \
+//     /verif/findings/obs_c16_nts_stale_share_cache.cc /verif/build/plain/mc/env_shim.o /verif/build/plain/libtmcg.a \
 //     -lgcrypt -lgmp -lgpg-error -ldl -o /tmp/c16_stale && /tmp/c16_stale
 // Expected on the defective tree: P0 "sign=0", P1, P2 "sign=1"; exit status 1.
 #include "sched.hh"
